@@ -426,26 +426,37 @@ def mask_interp(t, name):
     """how the mask path gets its interpolation: 'inherited' (forced 0 by DualTransform),
     'const:<expr>' the literal passed by an own apply_to_mask, 'param' when an own apply_to_mask
     forwards a formal named interpolation (which the shared parameter dict overrides), 'none'."""
+    def interp_uses(f):
+        out = []
+        for n in ast.walk(f):
+            if isinstance(n, ast.Call):
+                for kw in n.keywords:
+                    if kw.arg in ('interpolation', 'order'):
+                        out.append(ast.unparse(kw.value))
+                fname = n.func.attr if isinstance(n.func, ast.Attribute) else (n.func.id if isinstance(n.func, ast.Name) else '')
+                if fname in ('shift_scale_rotate', 'rotate', 'resize', 'scale', 'crop_and_pad', 'longest_max_size',
+                             'smallest_max_size'):
+                    # positional interpolation argument of the functional: look the position up in the callee
+                    pos = {'shift_scale_rotate': 8, 'rotate': 4, 'resize': 4, 'scale': 2, 'crop_and_pad': 7,
+                           'longest_max_size': 2, 'smallest_max_size': 2}[fname]
+                    if len(n.args) > pos:
+                        out.append(ast.unparse(n.args[pos]))
+        return out
     fn, owner = t.find(name, 'apply_to_mask')
     if fn is None:
         return 'none'
     if owner == 'DualTransform':
+        # the inherited path calls self.apply with the `interpolation` KEYWORD forced to nearest: that reaches the
+        # resampler only if apply hands on its own formal of that name (not self.interpolation, not a literal order)
+        afn, _ = t.find(name, 'apply')
+        if afn is not None:
+            aformals = [a.arg for a in afn.args.args] + [a.arg for a in afn.args.kwonlyargs]
+            bad = [u for u in interp_uses(afn) if u not in ('INTER_NEAREST', '0') and not (u == 'interpolation' and 'interpolation' in aformals)]
+            if bad:
+                return 'inherited-but-apply-uses:' + ','.join(bad)
         return 'inherited'
     formals = [a.arg for a in fn.args.args]
-    uses = []
-    for n in ast.walk(fn):
-        if isinstance(n, ast.Call):
-            for kw in n.keywords:
-                if kw.arg in ('interpolation', 'order'):
-                    uses.append(ast.unparse(kw.value))
-            fname = n.func.attr if isinstance(n.func, ast.Attribute) else (n.func.id if isinstance(n.func, ast.Name) else '')
-            if fname in ('shift_scale_rotate', 'rotate', 'resize', 'scale', 'crop_and_pad', 'longest_max_size',
-                         'smallest_max_size'):
-                # positional interpolation argument of the functional: look the position up in the callee
-                pos = {'shift_scale_rotate': 8, 'rotate': 4, 'resize': 4, 'scale': 2, 'crop_and_pad': 7,
-                       'longest_max_size': 2, 'smallest_max_size': 2}[fname]
-                if len(n.args) > pos:
-                    uses.append(ast.unparse(n.args[pos]))
+    uses = interp_uses(fn)
     if not uses:
         return 'nointerp'
     bad = [u for u in uses if u not in ('INTER_NEAREST', '0')]
